@@ -102,6 +102,11 @@ Theorem C11_scaled_roundtrip : forall n mn span eps prec v, n <= 6 -> (0 < span)
   (Rabs (dec_scaled n mn span eps k - v) <= /2 * prec)%R.
 Proof. exact scaled_roundtrip. Qed.
 
+(* U: the byte count the code computes, nbytes = ceil(ln(unique_values_needed) / ln 256), satisfies the premise
+   256^n >= unique_values_needed of C11_scaled_roundtrip (any n at least the quotient does) *)
+Theorem C11_scaled_nbytes : forall (n : nat) (U : R), (0 < U)%R -> (ln U / ln 256 <= INR n)%R -> (U <= W n)%R.
+Proof. exact scaled_nbytes_ok. Qed.
+
 (* non-vacuity: two bytes, range [0, 1], three digits *)
 Example C11_ex_scaled : (2 <= 6) /\ (0 < 1)%R /\ (0 < /1000)%R /\ (0 < / W 6 <= / W 6)%R /\
   (1 / (/1000) + 1 <= W 2)%R /\ (0 <= /2 <= 0 + 1)%R.
@@ -158,3 +163,4 @@ Print Assumptions C11_pure.
 Print Assumptions C11_scaled_code_fits.
 Print Assumptions C11_scaled_error.
 Print Assumptions C11_scaled_roundtrip.
+Print Assumptions C11_scaled_nbytes.
